@@ -57,7 +57,8 @@ def mk_frame(kind, sep, limit, rng):
 JSON_GOOD = [b"[1]", b'{"a":"b"}', b'"x\\"y"', b"12\n", b"null\n", b"[[]]", b'{"k":[1,{"z":"}"}]}', b'"["',
              b"1e+16\n", b"-2.5E-3\n", b"[1e+22]"]
 JSON_BAD = [b"[1,]", b'{"a"}', b"[,]", b'{"a":}', b"nul\n", b"[1 2]", b'"\\x"',
-            b'{"a":[1}', b'[{"x":1]', b'{"k":[[2}']     # outer bracket closes while an inner one is still open      # balanced for the scanner, rejected by the decoder
+            b'{"a":[1}', b'[{"x":1]', b'{"k":[[2}',     # outer bracket closes while an inner one is still open
+            b"}", b"]"]                                   # a closing bracket while nothing is open (duplicated bracket)      # balanced for the scanner, rejected by the decoder
 
 
 def json_cases(tier, rng, escalate):
@@ -280,6 +281,8 @@ def oracle(inp):
     seplen = len(sep)
     stream = b"".join(chunks)
     rounds = run_impl(inp)
+    if sc.abnormal(rounds):
+        return sc.abnormal(rounds)
     events = [e for r in rounds for e in r[1]]
     if any(e[0] == 2 for e in events):
         return "consumer crashed with RuntimeError"
